@@ -7,6 +7,10 @@ NUMBER_CONSERVING = {"Interferometer", "Beamsplitter", "Beamsplitter5050", "Phas
                      "CrossKerr", "SNAP"}
 
 
+PREPARATIONS = {"Vacuum", "StateVector", "NumberState", "DensityMatrix", "Create", "Annihilate", "Mean", "Covariance", "Thermal",
+                "ParentHamiltonian", "GaussianHamiltonian"}
+
+
 def kind_of(state):
     m = type(state).__module__
     n = type(state).__name__
@@ -193,6 +197,12 @@ def reported_quantities(state, tol=1e-9):
             out.append(("purity-out-of-range:%s" % k, "purity %.12f" % pur))
         if k in ("purefock", "ffock") and normalised and abs(pur - 1) > 1e-7:
             out.append(("pure-state-purity-not-one:%s" % k, "purity of a pure state %.12f" % pur))
+        if k == "fock":
+            # independent purity Tr rho^2 / (Tr rho)^2-free form: the library reports Tr rho^2 of the stored matrix
+            rho = np.asarray(state.density_matrix)
+            ref = float(np.real(np.trace(rho @ rho)))
+            if abs(pur - ref) > 1e-9 * max(1.0, abs(ref)):
+                out.append(("fock-purity-wrong", "get_purity()=%.12f, Tr rho^2 = %.12f" % (pur, ref)))
         if k == "gaussian":
             # independent purity: prod of 1/nu_k from the symplectic spectrum
             d = state.d
